@@ -1,6 +1,10 @@
 /* harness-form contracts for the scanner helper routines of lexact.c (C06, C20) */
 #ifndef VSN
-#define VSN 12            /* token text bound for the generic string walkers */
+#ifdef VERIF_TIER_THOROUGH
+#define VSN 14
+#else
+#define VSN 12
+#endif            /* token text bound for the generic string walkers */
 #endif
 #define LONGN 300        /* > SCAN_COMMENT_LENGTH: comment texts */
 
